@@ -40,6 +40,18 @@ the socket):
            `send_status_msg` (observed as score entries) and the `_send` of
            the UDP and TCP interfaces on a recording socket (TCP: int32 size
            prefix + packet).  RT `send_msg`/`send_bundle` are exercised by C07.
+  rroute - (round 2) nested bundles (depth 2, 3, 5; latency alphabet) sent
+           through NetAddr.send_bundle / send_msg from INSIDE A ROUTINE at
+           logical times 0, 0.1, 0.25, 2.75 s (SystemClock, TempoClock(2)):
+           the raw score bytes are decoded, every (nested) timetag must be
+           logical time + that bundle's latency (exact for dyadic values,
+           +-2 units otherwise) and agree with the score's list form; lists
+           of depth >= 3 are also sent a second time from the same object
+           (the library must not alter the caller's lists).  Known finding
+           C06-score-add-alters-nested-bundles (fixes/C06-score-add-alters-
+           nested-bundles.patch).  Mutation caught: OscScore.add resolving
+           the list times before encoding (rroute-roundtrip-mismatch,
+           rroute-raw-disagrees-with-list).
 * split  - element lists built from size classes whose total lands on
            limit + {-8,-4,0,4,8}, and many-small families, sent through
            `NetAddr.send_clumped_bundles` and through `NetAddr.sync` (driven
@@ -1502,7 +1514,12 @@ def check_rroute(case):
         if dec is not None:
             r = _list_vs_raw(lst, dec)
             if r:
-                dis.append((f'rroute-{nth}raw-disagrees-with-list',
+                # (first entry of a list that was sent again: its own kind,
+                # so that the known finding about re-sent lists can never
+                # hide a disagreement that does not need the second send)
+                dis.append((f'rroute-{nth}raw-disagrees-with-list' +
+                            ('-after-resend' if case['twice'] and not i
+                             else ''),
                             _short(lst, 300), _short(dec, 300), r))
         outcome.append(['sent', len(dgram), dec['timetag'] if dec else None])
     if k != len(entries):
